@@ -345,6 +345,22 @@ def scenario_gating_default(exe, workroot):
     return False, 'token stream unchanged under the default configuration'
 
 
+def scenario_vbrace_comment(exe, workroot):
+    """C04/C03: mod_full_brace_if=add must not write the new brace into a // comment"""
+    d = _tmp(workroot)
+    cfg = _cfg(d, 'mod_full_brace_if = add\n')
+    for src in (b'void f(int x)\n{\n   if (x) // c1\n      /* c2 */ foo();\n}\n', b'void f(int x)\n{\n   if (x)\n#define A 1 // c\n      foo();\n}\n'):
+        rc, out, err = run(exe, ['-c', cfg, '-l', 'C', '-q'], stdin=src)
+        if rc != 0:
+            continue
+        for line in out.decode(errors='replace').splitlines():
+            if '//' in line and ('{' in line.split('//', 1)[1] or '}' in line.split('//', 1)[1]):
+                return True, 'mod_full_brace_if=add wrote a brace into a // comment: %r' % line
+        if out.count(b'{') != out.count(b'}'):
+            return True, 'unbalanced braces after mod_full_brace_if=add: %r' % out
+    return False, 'added braces stay out of // comments'
+
+
 def scenario_lang_leak(exe, workroot):
     d = _tmp(workroot)
     a, b = os.path.join(d, 'A.c'), os.path.join(d, 'B.c')
